@@ -3,6 +3,27 @@
 use std::str::FromStr;
 fn main() {
     let a: Vec<String> = std::env::args().collect();
+    if a.len() >= 3 && a[1] == "est" {
+        // `dbg est <policy.json>`: deserialise as EST and render with the EST's own Display
+        let p: cedar_policy_core::est::Policy = serde_json::from_str(&std::fs::read_to_string(&a[2]).unwrap()).unwrap();
+        println!("{p}");
+        return;
+    }
+    if a.len() >= 3 && a[1] == "api-json" {
+        // `dbg api-json <policy.json>`: Policy::from_json, then Display / to_json / PolicySet Display
+        let v: serde_json::Value = serde_json::from_str(&std::fs::read_to_string(&a[2]).unwrap()).unwrap();
+        match cedar_policy::Policy::from_json(None, v) {
+            Ok(p) => {
+                println!("from_json ok");
+                println!("Display: {p}");
+                let mut s = cedar_policy::PolicySet::new();
+                s.add(p).unwrap();
+                println!("PolicySet Display: {s}");
+            }
+            Err(e) => println!("from_json err: {e}"),
+        }
+        return;
+    }
     if a.len() < 4 || a[1] != "manifest" {
         eprintln!("usage: dbg manifest <schema.cedarschema> <policies.cedar>");
         std::process::exit(2);
